@@ -4,10 +4,11 @@ Executable model driver: reads one JSON request per line on stdin
 Run with `lake env lean --run Driver/Main.lean`.
 -/
 import Driver.BBoxOps
+import Driver.C05Ops
 
 open Lean Driver
 
-def allOps : List (String × Handler) := bboxOps
+def allOps : List (String × Handler) := bboxOps ++ c05Ops
 
 def handleLine (line : String) : String :=
   match Json.parse line with
